@@ -2,8 +2,8 @@
 (***************************************************************************)
 (* As-built layer on top of the reference semantics (DESIGN 3.6).           *)
 (*                                                                         *)
-(* The engine compiles the operand stack to registers.  Four recorded       *)
-(* defects of that scheme (known_findings.json D1, D2, D4, D5) and one of the *)
+(* The engine compiles the operand stack to registers.  Five recorded       *)
+(* defects of that scheme (known_findings.json D1, D2, D4, D5, D6) and one of *)
 (* ALU (D3) make the engine deviate from WasmSem on specific programs.       *)
 (* This module computes, along the *reference* run,                          *)
 (*  - hz: the set of hazard predicates that held on the executed path, each  *)
@@ -15,7 +15,7 @@
 (*    result-register short-circuit, so D4 is classified by its predicate.)     *)
 (* A disagreement between the engine and WasmSem is attributed to a recorded *)
 (* finding only if (D3) the engine's outcome equals the as-built outcome of  *)
-(* a run in which the deviation fired, or (D1/D2/D4/D5) the hazard predicate  *)
+(* a run in which the deviation fired, or (D1/D2/D4/D5/D6) the hazard predicate *)
 (* held on the executed path.  Everything else is a violation.               *)
 (*                                                                         *)
 (* D1  a value that is on the operand stack as a pending reference to local  *)
@@ -38,6 +38,12 @@
 (*     site s again while that slot is still on the stack: the copy runs a     *)
 (*     second time and overwrites the preserved value with the local's         *)
 (*     current value.  ps[i] = the sites that redirected slot i.               *)
+(* D6  a not-taken br_if to a value-carrying block leaves its carried value in *)
+(*     the block's result register (D2).  If that value is the CONDITION of a   *)
+(*     later br_if to the same block, the copy of the later br_if's carried      *)
+(*     value into the result register precedes the test (D4) and the test reads  *)
+(*     the carried value instead of the condition.  pk[i] = position in the       *)
+(*     label stack of the block in whose result register slot i is parked.        *)
 (***************************************************************************)
 EXTENDS WasmSem
 
@@ -58,7 +64,7 @@ SetsIn(body, from, to) ==
   {body[i].i : i \in {j \in from..to : j >= 1 /\ j <= Len(body) /\ body[j].op \in {"local.set", "local.tee"}}}
 
 StartH(M, f, args, hostq, dev) ==
-  Start(M, f, args, hostq) @@ [hz |-> {}, so |-> <<>>, fso |-> <<>>, ps |-> <<>>, fps |-> <<>>, watch |-> {}, dev |-> dev, fired |-> {}]
+  Start(M, f, args, hostq) @@ [hz |-> {}, so |-> <<>>, fso |-> <<>>, ps |-> <<>>, fps |-> <<>>, pk |-> <<>>, fpk |-> <<>>, watch |-> {}, dev |-> dev, fired |-> {}]
 
 StepH(M, ctl, c) ==
   LET body == M.funcs[c.f].body
@@ -109,6 +115,18 @@ StepH(M, ctl, c) ==
                ELSE ps1
       newFps == IF called THEN Append(c.fps, SubSeq(c.ps, 1, IF keep < Len(c.ps) THEN keep ELSE Len(c.ps)))
                 ELSE IF returned /\ c.fps # <<>> THEN Front(c.fps) ELSE c.fps
+      tgtPos == IF op = "br_if" THEN Len(c.lb) - ins.l ELSE 0
+      valBrIf == op = "br_if" /\ tgt.kind = "block" /\ tgt.arity = 1
+      d6 == valBrIf /\ n <= Len(c.pk) /\ c.pk[n] = tgtPos /\ tgtPos > 0
+      pk1 == [i \in 1..Len(r.st) |->
+                IF valBrIf /\ notTaken /\ i = n - 1 THEN tgtPos
+                ELSE IF i <= keep /\ i <= Len(c.pk) /\ i <= Len(r.st) - carried THEN c.pk[i] ELSE 0]
+      newPk == IF r.status # "run" THEN <<>>
+               ELSE IF called THEN Zeros(Len(r.st))
+               ELSE IF returned THEN LET saved == Last(c.fpk) IN [i \in 1..Len(r.st) |-> IF i <= Len(saved) THEN saved[i] ELSE 0]
+               ELSE pk1
+      newFpk == IF called THEN Append(c.fpk, SubSeq(c.pk, 1, IF keep < Len(c.pk) THEN keep ELSE Len(c.pk)))
+                ELSE IF returned /\ c.fpk # <<>> THEN Front(c.fpk) ELSE c.fpk
       newFso == IF called THEN Append(c.fso, SubSeq(c.so, 1, IF keep < Len(c.so) THEN keep ELSE Len(c.so)))
                 ELSE IF returned /\ c.fso # <<>> THEN Front(c.fso) ELSE c.fso
       depth == Len(c.fr)
@@ -116,9 +134,9 @@ StepH(M, ctl, c) ==
       w2 == {w \in w1 : w.depth <= Len(r.fr) /\ (w.depth < Len(r.fr) \/ Len(r.lb) >= w.lbl)}
       d2fire == \E w \in w2 : w.depth = Len(r.fr) /\ r.status = "run" /\ Len(r.st) < w.h
       newHz == c.hz \cup (IF d1 THEN {"D1"} ELSE {}) \cup (IF d2fire THEN {"D2"} ELSE {})
-                    \cup (IF d3 THEN {"D3"} ELSE {}) \cup (IF d4 THEN {"D4"} ELSE {}) \cup (IF d5 THEN {"D5"} ELSE {})
+                    \cup (IF d3 THEN {"D3"} ELSE {}) \cup (IF d4 THEN {"D4"} ELSE {}) \cup (IF d5 THEN {"D5"} ELSE {}) \cup (IF d6 THEN {"D6"} ELSE {})
       newFired == c.fired \cup (IF d3 /\ "D3" \in c.dev THEN {"D3"} ELSE {}) 
-  IN [r EXCEPT !.hz = newHz, !.so = newSo, !.fso = newFso, !.ps = newPs, !.fps = newFps, !.watch = w2, !.fired = newFired]
+  IN [r EXCEPT !.hz = newHz, !.so = newSo, !.fso = newFso, !.ps = newPs, !.fps = newFps, !.pk = newPk, !.fpk = newFpk, !.watch = w2, !.fired = newFired]
 
 RECURSIVE RunFuelH(_, _, _, _)
 RunFuelH(M, ctl, c, fuel) ==
@@ -128,7 +146,7 @@ RunFuelH(M, ctl, c, fuel) ==
 
 RunH(M, f, args, hostq, fuel, dev) == RunFuelH(M, CtlOf(M), StartH(M, f, args, hostq, dev), fuel)
 
-SortedSet(S) == SelectSeq(<<"D1", "D2", "D3", "D4", "D5">>, LAMBDA x : x \in S)
+SortedSet(S) == SelectSeq(<<"D1", "D2", "D3", "D4", "D5", "D6">>, LAMBDA x : x \in S)
 
 (* reference outcome, hazards seen on the reference path, and - when a modelled deviation
    applies - the as-built outcome *)
